@@ -25,7 +25,7 @@ PARTIAL = ("Theorems are over exact real arithmetic extended by +Inf/-Inf/NaN (c
            "the Pdf of LogisticRegression and the HMM / mixture types have no Pdf or are not modelled; gamma Mean, normal "
            "MagicLogCdf, vector normal Mean / Variance / EllipticCdf and the NIW marginals are not modelled. Point masses at boundary parameters "
            "(negative binomial p = 0, binomial theta = 0 / 1, geometric p = 1) are proved with the hypothesis lgam 1 = 0; negative binomial p = 1 "
-           "is accepted with total mass 0 (finding). VectorId (blocks of different dimensions) is proved over abstract components and tied "
+           "(total mass 0) is rejected: the constructor accepts exactly r > 0, 0 <= p < 1 (negbinomial_ctor_domain). VectorId (blocks of different dimensions) is proved over abstract components and tied "
            "over ScalarIid blocks only; matrixDistribution.VectorId.LogPdf is not modelled. Vector families (t, normal, ScalarIid, ScalarId, VectorId) "
            "are modelled with the inverse and determinant of Sigma entering as logged data (SigmaInv / SigmaDet fields; "
            "matrixInverse / determinant are other properties' business); the same holds for the skew normal (kappa = "
